@@ -19,6 +19,7 @@ var Families = map[string][]string{
 	"C19": {"ping"},
 	"C13": {"arpspoof"},
 	"C14": {"ndspoof"},
+	"C07": {"sends", "hosts", "dhcp", "arpspoof", "ndspoof", "ping"},
 }
 
 // Generate builds the scenario for (property, family, seed).
@@ -36,6 +37,8 @@ func Generate(prop, family string, seed uint64, tier string) Scenario {
 		return genARPSpoof(prop, seed, tier)
 	case "ndspoof":
 		return genNDSpoof(prop, seed, tier)
+	case "sends":
+		return genSends(prop, seed, tier)
 	}
 	panic("unknown family " + family)
 }
@@ -59,7 +62,8 @@ func Driver(sc Scenario, trace bool) func() {
 			simrt.Result(b)
 		}
 		e.w = w
-		w.Violation = func(oracle, key, detail string) { e.violate(oracle, key, detail) }
+		// a malformed frame does not invalidate the rest of the history: keep going
+		w.Violation = func(oracle, key, detail string) { e.violateSoft(oracle, key, detail) }
 		switch sc.Family {
 		case "hosts":
 			runHosts(e)
@@ -73,6 +77,8 @@ func Driver(sc Scenario, trace bool) func() {
 			runARPSpoof(e)
 		case "ndspoof":
 			runNDSpoof(e)
+		case "sends":
+			runSends(e)
 		default:
 			e.violate("infra.setup", "family", fmt.Sprintf("unknown family %q", sc.Family))
 		}
